@@ -37,6 +37,7 @@ pub(super) mod service;
 mod weakopt;
 
 pub(super) use self::checkout::Checkout;
+use self::checkout::CheckoutRole;
 use self::idle::IdleConnections;
 pub(super) use self::key::Token;
 use self::key::TokenMap;
@@ -195,7 +196,7 @@ where
                 rx,
                 connector,
                 Some(connection),
-                false,
+                CheckoutRole::Independent,
                 &inner.config,
             );
         }
@@ -208,15 +209,16 @@ where
         });
 
         if waits_for_connecting {
+            // The connector is only a fallback: it is used if the connection attempt
+            // this checkout waits for goes away without producing a connection.
             trace!("connection in progress elsewhere, will wait");
-            connector = None;
             Checkout::new(
                 token,
                 self.as_ref(),
                 rx,
                 connector,
                 None,
-                false,
+                CheckoutRole::Standby { multiplex },
                 &inner.config,
             )
         } else {
@@ -232,7 +234,11 @@ where
                 rx,
                 connector,
                 None,
-                multiplex,
+                if multiplex {
+                    CheckoutRole::Owner
+                } else {
+                    CheckoutRole::Independent
+                },
                 &inner.config,
             )
         }
@@ -406,12 +412,34 @@ where
             trace!("pending connection cancelled");
         }
 
-        // Checkouts which were told to wait for this connection attempt have no way to
-        // connect on their own. Release them, so that they resolve with an error
-        // instead of waiting forever.
+        // Release the checkouts which were told to wait for this connection attempt, so
+        // that they connect on their own instead of waiting forever.
         if let Some(waiters) = self.waiting.get_mut(&token) {
             waiters.retain(|waiter| !waiter.waits_for_connecting);
         }
+    }
+
+    /// A checkout which was waiting for a connection attempt has been released, because
+    /// that attempt went away. It either waits for the attempt which has replaced it
+    /// (returns `true`), or replaces it itself. Either way it listens for connections
+    /// returned to the pool on the new receiver.
+    pub(in crate::client) fn take_over(
+        &mut self,
+        token: Token,
+        multiplex: bool,
+    ) -> (tokio::sync::oneshot::Receiver<Pooled<C, B>>, bool) {
+        let (tx, rx) = tokio::sync::oneshot::channel();
+        let waits_for_connecting = self.connecting.contains(&token);
+        self.waiting.entry(token).or_default().push_back(Waiter {
+            sender: tx,
+            waits_for_connecting,
+        });
+
+        if !waits_for_connecting && multiplex {
+            self.connecting.insert(token);
+        }
+
+        (rx, waits_for_connecting)
     }
 }
 
@@ -492,7 +520,7 @@ where
         }
     }
 
-    fn pop(&mut self, token: Token) -> Option<C> {
+    pub(in crate::client) fn pop(&mut self, token: Token) -> Option<C> {
         let mut empty = false;
         let mut idle_entry = None;
 
